@@ -33,6 +33,7 @@ type RecvNode struct {
 	dirty     atomic.Bool
 	bootStep  int
 	recovering sync.Map // source -> true while its start-up recovery has not finished
+	pending    *recoverPending // completely received files start-up recovery has to validate
 }
 
 func (n *RecvNode) isDead() bool     { return n.dead.Load() }
@@ -196,6 +197,7 @@ func (s *Sim) bootReceiver(root string, inc int) *RecvNode {
 			}
 		}
 	}
+	n.pending = snapshotRecoverPending(n.stageDir())
 	stshttp.DefaultServer = nil
 	sa := &serverApp{conf: conf.Server}
 	if err = sa.init(); err != nil {
